@@ -7,11 +7,24 @@ import (
 
 var UnknownPEMData = Info{Description: "unknown PEM data"}
 
+// unparsedCertificate describes the content of a CERTIFICATE block that crypto/x509 does
+// not accept (a certificate on a curve it does not know, with explicit EC parameters or
+// with inherited DSA parameters, say) the way the same bytes are described when they
+// arrive as DER or base64: by ASN1File. Content that is not one ASN.1 value remains
+// unknown PEM data.
+func unparsedCertificate(der []byte) Info {
+	if !isBinaryASN1(der) {
+		return UnknownPEMData
+	}
+	info, _ := ASN1File(Info{}, der)
+	return info
+}
+
 func parsePEMBlock(b *pem.Block) Info {
 	switch strings.ToUpper(b.Type) {
 	case "CERTIFICATE", "TRUSTED CERTIFICATE":
 		if info, err := parseCertificate(b.Bytes); err != nil {
-			return UnknownPEMData
+			return unparsedCertificate(b.Bytes)
 		} else {
 			return info
 		}
